@@ -26,6 +26,7 @@ type site struct {
 	Expr  string `json:"expr"`
 	Class string `json:"class"`
 	Why   string `json:"why"`
+	Cmp   string `json:"cmp,omitempty"` // for class sorted: how the collected slice is ordered (natural | field:<selector> | custom:<source>)
 }
 
 func str(fset *token.FileSet, n ast.Node) string {
@@ -59,13 +60,13 @@ func main() {
 				if !ok || fd.Body == nil {
 					continue
 				}
-				// slices sorted anywhere in the function
-				sorted := map[string]bool{}
+				// slices sorted anywhere in the function, and by what order
+				sorted := map[string]string{}
 				ast.Inspect(fd.Body, func(n ast.Node) bool {
 					if c, ok := n.(*ast.CallExpr); ok {
 						name := str(p.Fset, c.Fun)
 						if (strings.HasPrefix(name, "sort.") || strings.HasPrefix(name, "slices.Sort")) && len(c.Args) > 0 {
-							sorted[str(p.Fset, c.Args[0])] = true
+							sorted[str(p.Fset, c.Args[0])] = comparator(p.Fset, name, c)
 						}
 					}
 					return true
@@ -80,12 +81,12 @@ func main() {
 						if _, isMap := t.Underlying().(*types.Map); !isMap {
 							return true
 						}
-						class, why := classify(p.Fset, x, sorted)
-						sites = append(sites, site{rel, fd.Name.Name, str(p.Fset, x.X), class, why})
+						class, why, cmp := classify(p.Fset, x, sorted)
+						sites = append(sites, site{rel, fd.Name.Name, str(p.Fset, x.X), class, why, cmp})
 					case *ast.CallExpr:
 						name := str(p.Fset, x.Fun)
 						if name == "maps.Keys" || name == "maps.Values" {
-							sites = append(sites, site{rel, fd.Name.Name, str(p.Fset, x), "collect", "iterator over a map"})
+							sites = append(sites, site{rel, fd.Name.Name, str(p.Fset, x), "collect", "iterator over a map", ""})
 						}
 					}
 					return true
@@ -108,7 +109,40 @@ func main() {
 	_ = enc.Encode(sites)
 }
 
-func classify(fset *token.FileSet, r *ast.RangeStmt, sorted map[string]bool) (string, string) {
+// comparator describes the order a sort call imposes: "natural" for sort.Strings / sort.Ints / slices.Sort; "field:<sel>" when the
+// less function is exactly `return x[i]<sel> < x[j]<sel>` over the sorted slice with no call in it (a total order on that field);
+// anything else is "custom:<source>" and has to be reviewed — a comparator that identifies distinct keys (case folding, truncation)
+// leaves their relative order to the map iteration.
+func comparator(fset *token.FileSet, name string, c *ast.CallExpr) string {
+	switch name {
+	case "sort.Strings", "sort.Ints", "sort.Float64s", "slices.Sort":
+		return "natural"
+	}
+	if (name == "sort.Slice" || name == "sort.SliceStable") && len(c.Args) == 2 {
+		if fl, ok := c.Args[1].(*ast.FuncLit); ok && len(fl.Body.List) == 1 && len(fl.Type.Params.List) >= 1 {
+			var pn []string
+			for _, f := range fl.Type.Params.List {
+				for _, n := range f.Names {
+					pn = append(pn, n.Name)
+				}
+			}
+			if ret, ok := fl.Body.List[0].(*ast.ReturnStmt); ok && len(ret.Results) == 1 && len(pn) == 2 {
+				if be, ok := ret.Results[0].(*ast.BinaryExpr); ok && be.Op == token.LSS {
+					sl := str(fset, c.Args[0])
+					l, r := str(fset, be.X), str(fset, be.Y)
+					pi, pj := sl+"["+pn[0]+"]", sl+"["+pn[1]+"]"
+					if strings.HasPrefix(l, pi) && strings.HasPrefix(r, pj) && l[len(pi):] == r[len(pj):] && !strings.ContainsAny(l[len(pi):], "()") {
+						return "field:" + l[len(pi):]
+					}
+				}
+			}
+		}
+		return "custom:" + str(fset, c.Args[1])
+	}
+	return "custom:" + str(fset, c)
+}
+
+func classify(fset *token.FileSet, r *ast.RangeStmt, sorted map[string]string) (string, string, string) {
 	var appends []string
 	var ordered []string
 	ast.Inspect(r.Body, func(n ast.Node) bool {
@@ -137,19 +171,29 @@ func classify(fset *token.FileSet, r *ast.RangeStmt, sorted map[string]bool) (st
 		return true
 	})
 	if len(ordered) > 0 {
-		return "ordered", strings.Join(ordered, "; ")
+		return "ordered", strings.Join(ordered, "; "), ""
 	}
 	if len(appends) == 0 {
-		return "set", "no append, concatenation or early exit in the body"
+		return "set", "no append, concatenation or early exit in the body", ""
 	}
-	var unsorted []string
+	var unsorted, cmps []string
+	custom := false
 	for _, a := range appends {
-		if !sorted[a] {
+		c, ok := sorted[a]
+		if !ok {
 			unsorted = append(unsorted, a)
+			continue
+		}
+		cmps = append(cmps, c)
+		if strings.HasPrefix(c, "custom:") {
+			custom = true
 		}
 	}
 	if len(unsorted) == 0 {
-		return "sorted", "appends to " + strings.Join(appends, ", ") + ", sorted later in the function"
+		if custom {
+			return "sorted-custom", "appends to " + strings.Join(appends, ", ") + ", sorted later by a comparator that is not a plain field order", strings.Join(cmps, "; ")
+		}
+		return "sorted", "appends to " + strings.Join(appends, ", ") + ", sorted later in the function", strings.Join(cmps, "; ")
 	}
-	return "ordered", "appends to " + strings.Join(unsorted, ", ") + " with no later sort in the function"
+	return "ordered", "appends to " + strings.Join(unsorted, ", ") + " with no later sort in the function", ""
 }
